@@ -156,6 +156,10 @@ def frame_valid(frame, kind):
 
 def make_tokenizer(validator, p):
     mn, mx, sil, imin, isil, mode = p
+    if (mn + sil + imin) % 2:
+        # positional, in the documented order (validator, min_length, max_length, max_continuous_silence,
+        # init_min, init_max_silence, mode)
+        return StreamTokenizer(validator, mn, mx, sil, imin, isil, mode)
     return StreamTokenizer(
         validator, mn, mx, sil, init_min=imin, init_max_silence=isil, mode=mode
     )
@@ -185,6 +189,7 @@ def deliver(tk, source, deliv, on_token=None):
             out.append(tuple(a))
             if on_token:
                 on_token(tuple(a))
+            return len(out)  # what a callback returns is its own business (here: a running count)
 
         tk.tokenize(source, callback=cb)
     else:
@@ -207,7 +212,16 @@ def prepare(case):
     pre = case.get("pre")
     if kind == "stateful" and pre:
         kind = "obj"  # (a validator with a memory is paired with a single stream)
-    frames, validator, source = make_stream(case["pat"], kind, case.get("src", "ds"))
+    skip = case.get("skip") or ""
+    frames, validator, source = make_stream(skip + case["pat"], kind, case.get("src", "ds"))
+    if skip:
+        # the source has already handed out frames to someone else: the stream the tokenizer sees starts
+        # where the source stands
+        for _ in skip:
+            source.read()
+        frames = frames[len(skip):]
+        if kind == "stateful":
+            validator.frames = frames
     tk = make_tokenizer(validator, case["p"])
     if pre:
         _f0, _v0, s0 = make_stream(pre["pat"], kind, case.get("src", "ds"))
